@@ -10,7 +10,8 @@ from mc.vm import hval
 
 _INT = {}
 INTER_CRYSTALS = [('FCC_O', 0), ('FCC_T', 0), ('FCC_OT', 0), ('FCC_OT', 2), ('BCC_O', 0), ('BCC_T', 0), ('HCP_OT', 0), ('HCP_OT', 1),
-                  ('HONEY', 0), ('ROMEGA', 0), ('RUMPLED2', 0), ('WURTZ2', 0), ('P1', 1), ('RECTM', 0), ('HEXM', 1), ('KAGOME', 0)]
+                  ('HONEY', 0), ('ROMEGA', 0), ('RUMPLED2', 0), ('WURTZ2', 0), ('P1', 1), ('RECTM', 0), ('HEXM', 1), ('KAGOME', 0),
+                  ('P1_3', 0), ('PMMM_G', 0), ('P2MM_G', 0), ('OBL3', 0)]
 
 
 def calculator(name, icut):
